@@ -49,7 +49,7 @@ NegInf == 0 - 2000000000        \* below every reward in integer units (TLC inte
 
 VARIABLES par,       \* run parameters [method, env, NN, S, W, n, B, A, R, maxIters, stopAt]  (never change)
           focus,     \* the batch whose iterations range over all choices (the others take a fixed base choice)
-          pc,        \* "init" | "bstart" | "iter" | "bend" | "end" | "done"
+          pc,        \* "pick" (choose stopAt / focus) | "init" | "bstart" | "iter" | "bend" | "end" | "done"
           bi,        \* batch_idx (0-based)
           it,        \* iterations of the current batch done so far
           ver,       \* optimiser steps applied to the LIVE policy parameters since the originals
@@ -168,7 +168,7 @@ IterCore(rs) ==
                  THEN /\ maxRew' = <<mx>> /\ bestSol' = <<Write(bestSol[1], rs[ArgMax(rs, F, Ident)].acts)>>
                  ELSE UNCHANGED <<maxRew, bestSol>>
        ELSE \* max_reward = reward.max over (augmentation, start) of each row -- OF THIS ITERATION, incumbent rollout included;
-            \* topk(reward.reshape(R*Bk, -1), 1) names the solution that is copied into best_solutions
+            \* topk(reward.reshape(rows, -1), 1) names the solution that is copied into best_solutions
             /\ maxRew' = [b \in 1..Bk |-> MaxOf({rs[f].rew : f \in {g \in DOMAIN rs : RowB(g) = b}})]
             /\ bestSol' = [b \in 1..Bk |-> Write(bestSol[b], rs[ArgMax(rs, {g \in DOMAIN rs : RowB(g) = b}, EASRank)].acts)]
   /\ seen' = [i \in DOMAIN seen |-> seen[i] \cup {<<rs[f].rew, Eff(rs[f].acts)>> : f \in {g \in DOMAIN rs : rs[g].i = i}}]
